@@ -499,7 +499,10 @@ where
     /// model creation, the function expects the layout of the parameter vector to be `$\vec{\alpha}=(\tau,\beta)^T$`.
     fn set_params(&mut self, params: &Vector<Model::ScalarType, Dyn, Self::ParameterStorage>) {
         if self.model.set_params(params.clone()).is_err() {
+            // the model did not accept the parameters: nothing we could calculate
+            // from here on would belong to them
             self.cached = None;
+            return;
         }
         // matrix of weighted model function values
         let Phi_w = self.model.eval().ok().map(|Phi| &self.weights * Phi);
@@ -637,7 +640,10 @@ where
     /// model creation, the function expects the layout of the parameter vector to be `$\vec{\alpha}=(\tau,\beta)^T$`.
     fn set_params(&mut self, params: &Vector<Model::ScalarType, Dyn, Self::ParameterStorage>) {
         if self.model.set_params(params.clone()).is_err() {
+            // the model did not accept the parameters: nothing we could calculate
+            // from here on would belong to them
             self.cached = None;
+            return;
         }
         // matrix of weighted model function values
         let Phi_w = self.model.eval().ok().map(|Phi| &self.weights * Phi);
